@@ -35,6 +35,7 @@ func checkC10(r *Run) propMeta {
 	checkBuilderCopiesCriteria(r)
 	checkEscapeOnce(r)
 	checkRewriteFlagState(r)
+	checkLazyMapReadThroughAccessor(r)
 	checkEmitterPackageState(r, "C10-R4-render-function-of-model")
 	r.Floor("C10-R9-rewritten-implies-parameters", 2)
 	r.Floor("C10-R1-precedence", 6)
